@@ -232,3 +232,8 @@ def run_one(tape, tier, prop):
     res.shape = (spec["mpos"], len(refD.raw_base), hist[0] if hist else None)
     res.digest = digest_of([[seq_of(runs[n]) for n in ("D", "S", "L", "SL")], hist, [v.as_dict() for v in res.violations]])
     return res
+
+
+def extra_phase(tier, base_seed):
+    from .. import bigworld
+    return bigworld.restriction_phase(tier, base_seed)
